@@ -52,3 +52,18 @@ Theorem C17_idempotent_decomposition : forall (T K R F : Type) (key : T -> K) (k
   fix_text T K R F key key_eqb crawl apply rule_phase fix_compat rules text parse raw x.
 Proof. exact idempotent_decomposition. Qed.
 Print Assumptions C17_idempotent_decomposition.
+
+(** H_converged from the exits: both phases end by NoChange, no result of a fix on the Main phase's
+    final tree is rejected by the guard, and Post left that tree alone => no fix-compatible rule has
+    a fix left on the final tree. *)
+Theorem C17_converged_from_exits : forall (T K R F : Type) (key : T -> K) (key_eqb : K -> K -> bool)
+    (crawl : R -> T -> option F) (apply : T -> F -> T) (rule_phase : R -> phase) (fix_compat : R -> bool)
+    (rules : list R) (fm : nat) (pm : N) (sm sm' : st T K R) (fp : nat) (pp : N) (sp' : st T K R),
+  phase_loop T K R F key key_eqb crawl apply rule_phase fix_compat rules Main fm pm sm = (sm', NoChange) ->
+  phase_loop T K R F key key_eqb crawl apply rule_phase fix_compat rules Post fp pp sm' = (sp', NoChange) ->
+  tree T K R sp' = tree T K R sm' ->
+  (forall (r : R) (f : F), crawl r (tree T K R sm') = Some f ->
+     mem_key K key_eqb (key (apply (tree T K R sm') f)) (seen T K R sm') = false) ->
+  forall r : R, In r rules -> fix_compat r = true -> crawl r (tree T K R sp') = None.
+Proof. exact converged_from_exits. Qed.
+Print Assumptions C17_converged_from_exits.
